@@ -310,6 +310,15 @@ class Emitter:
                     raise OutOfModel("integral float as mapping key (member name is repr(float))")
                 if a != a:
                     raise OutOfModel("NaN-like mapping key (distinct keys, one member name)")
+            names = []
+            for a in v:
+                b = a.value if isinstance(a, enum.Enum) else a
+                if b is None or isinstance(b, (bool, int, float, str)):
+                    import json as _json
+                    names.append(next(iter(_json.loads(_json.dumps({b: 0})))))
+            if len(set(names)) < len(names):
+                # e.g. {None: 3, 'null': ...}: distinct Python keys, one JSON member name (the JSON round trip merges them)
+                raise OutOfModel("mapping keys collide on the wire")
         if k in ("dict", "mapping", "ordereddict", "defaultdict"):
             return "(VDict " + cl([f"({self.value(t[1], a)}, {self.value(t[2], b)})" for a, b in v.items()]) + ")"
         if k == "counter":
